@@ -58,7 +58,8 @@ def cx_to_ir(n):
         p = cxfe.kids(n)
         return S("loop", p[0], cx_to_ir(p[1]), [], "while", src=n)
     if k == "DoStmt":
-        raise AnalysisError("do-while loop: idiom not modelled (%s:%s)" % cxfe.loc(n))
+        p = cxfe.kids(n)      # body, cond
+        return S("loop", p[1], cx_to_ir(p[0]), [], "do", src=n)
     if k == "SwitchStmt":
         p = cxfe.kids(n)
         cond, body = p[0], p[1]
@@ -337,7 +338,18 @@ class Engine:
                 return self._map(h, lambda cfg: c.loop_head(s, cfg))
             return h
 
+        def once_do(h):
+            # body first, then the condition decides between another pass and the exit
+            r = self.ex(s.b, h)
+            tail = self.join(r.normal, r.cont)
+            tail = self._map(tail, lambda cfg: c.cond(s.a, cfg))
+            back = self._map(tail, lambda cfg: c.assume(s.a, True, cfg))
+            exit_ = self._map(tail, lambda cfg: c.assume(s.a, False, cfg))
+            return back, self.join(exit_, r.brk)
+
         def once(h):
+            if s.d == "do":
+                return once_do(h)
             h = head_state(h)
             if s.a is not None:
                 h = self._map(h, lambda cfg: c.cond(s.a, cfg))
